@@ -211,9 +211,11 @@ CHECKS["C08"] = dict(
          "size check of exactly what the driver publishes), uploaded_blob_arrives_identically (driver-side decode of exactly what the client "
          "library uploads), an_unset_blob_is_left_out, no_payload_without_enabling / a_blob_only_connection_carries_nothing_else (router policy), "
          "blob_connection_frames_messages_of_any_length (framing theorem at threshold = None, any fragmentation), processing_always_ends (every "
-         "processing call terminates on any text, any threshold). REFUTED on threshold-enabled links: long_message_is_destroyed_refuted (known "
-         "finding K1). End to end - driver, router, server connection handlers, fragmented byte pipes, control and BLOB connection, client - "
-         "is the system model, VALIDATED against the real stack per operation, plus a model-free oracle (identical bytes/format/length at every "
+         "processing call terminates on any text, any threshold). End to end in the composed system model: a_published_payload_is_shown_identically "
+         "(driver assigns -> setBLOBVector -> BLOB connection -> the connected client shows identical bytes and format), "
+         "a_submitted_write_reaches_the_driver and an_uploaded_payload_is_held_identically (client -> driver). REFUTED on threshold-enabled links: "
+         "long_message_is_destroyed_refuted (known finding K1). That the system model is the real stack - driver, router, server connection "
+         "handlers, fragmented byte pipes, control and BLOB connection, client - is VALIDATED per operation, plus a model-free oracle (identical bytes/format/length at every "
          "client that enabled BLOBs, nothing at the others, uploads identical at the driver, following traffic flows, no stall under a watchdog).",
     note=NOTE_BASE + "Known finding K1: messages longer than the 2048-character threshold on threshold-enabled links (uploads above ~1.4 KB, BLOB updates to a control connection with Also) are destroyed.",
     technique="Coq proof (payload codec, policy, framing without threshold, termination) + system-level correspondence and watchdog on the real BLOB paths in both directions",
